@@ -255,3 +255,57 @@ Definition run_dump (k0 ks0 : Z) (o : opts) (l : list init_call) (fsd0 : Q) (evs
   let s0 := init_phase k0 ks0 o l fsd0 in
   let sf := run_loop o s0 evs in
   VL [dump_st s0; VL (run_trace o s0 evs); VL (map dump_hrow (hist sf)); dump_calls sf].
+
+(* ---- final phase (optimize() l.1428-1494): stochastic targets with at least one completed poll
+   iteration re-estimate the history, return the iterate with the lowest quantile bound and
+   re-sample it noise_final_samples times WITHOUT recording.  Oracles: the chosen index, the
+   re-estimated (fval, fsd) of that iterate, the observations, NumPy's mean and SEM. ---- *)
+Record final_ev := mkFE {
+  fe_idx : nat;            (* min_q_beta_idx: chosen history index *)
+  fe_f : Q; fe_s : Q;      (* re-estimated fval, fsd of that iterate *)
+  fe_obs : list (bool * Q * option Q);   (* per final sample: fault?, value, SD reported *)
+  fe_mean : Q; fe_sem : Q  (* np.mean(yval_vec), np.std(yval_vec)/sqrt(n) *)
+}.
+
+Record final_out := mkFO {
+  fo_st : st;
+  fo_yvec : list Q;               (* optim_state['yval_vec'] *)
+  fo_sdvec : list (option Q);     (* SDs reported with the fresh samples *)
+  fo_sampled : bool               (* the re-sampling branch ran *)
+}.
+
+Fixpoint final_samples (s : st) (u : list Q) (n : nat) (obs : list (bool * Q * option Q)) (ys : list Q) (sds : list (option Q))
+  : st * list Q * list (option Q) :=
+  match n, obs with
+  | S m, (flt, y, sd) :: r =>
+      if exn s then (s, ys, sds) else
+      let s' := do_eval s (mkE u flt y y 0 0 false) in
+      if exn s' then (s', ys, sds) else final_samples s' u m r (ys ++ [y]) (sds ++ [sd])
+  | _, _ => (s, ys, sds)
+  end.
+
+Definition final_phase (o : opts) (nfs : Z) (ev : final_ev) (s : st) : final_out :=
+  if exn s || o_det o || (piter s <=? 0) then mkFO s [] [] false else
+  match nth_error (hist s) (fe_idx ev) with
+  | None => mkFO s [] [] false
+  | Some h =>
+      let c := mkI (i_u (h_inc h)) (i_y (h_inc h)) (fe_f ev) (fe_s ev) in
+      let s1 := set_cur s c in
+      if nfs <=? 0 then mkFO s1 [] [] false else
+      let '(s2, ys, sds) := final_samples s1 (i_u c) (Z.to_nat nfs) (fe_obs ev) [] [] in
+      if exn s2 then mkFO s2 ys sds true else
+      let yvec := match ys with [y] => [y; i_y c] | _ => ys end in
+      mkFO (set_cur s2 (mkI (i_u c) (i_y c) (fe_mean ev) (fe_sem ev))) yvec sds true
+  end.
+
+Definition run_full (k0 ks0 : Z) (o : opts) (l : list init_call) (fsd0 : Q) (evs : list iter_ev) (nfs : Z) (fev : final_ev) : final_out :=
+  final_phase o nfs fev (run k0 ks0 o l fsd0 evs).
+
+Definition dump_final (f : final_out) : val :=
+  VL [dump_ctrl (fo_st f); dump_inc (cur (fo_st f)); vq_list (fo_yvec f);
+      VL (map (vopt (fun q => VQ (Qred q))) (fo_sdvec f)); VB (fo_sampled f); dump_calls (fo_st f)].
+
+Definition run_full_dump (k0 ks0 : Z) (o : opts) (l : list init_call) (fsd0 : Q) (evs : list iter_ev) (nfs : Z) (fev : final_ev) : val :=
+  let s0 := init_phase k0 ks0 o l fsd0 in
+  let sf := run_loop o s0 evs in
+  VL [dump_st s0; VL (run_trace o s0 evs); VL (map dump_hrow (hist sf)); dump_final (final_phase o nfs fev sf)].
